@@ -14,6 +14,7 @@ import BufrModel.Drv.SectionsOp
 import BufrModel.Drv.SubsetOp
 import BufrModel.Drv.TemplateOp
 import BufrModel.Drv.CacheOp
+import BufrModel.Drv.SessionOp
 import BufrModel.Drv.CompilerOp
 import BufrModel.Drv.TableDefOp
 import BufrModel.Drv.FlatOp
@@ -42,6 +43,7 @@ def statelessOps : List (String × (Json → J Json)) :=
   ("subset", opSubset) ::
   ("normalize", opNormalize) ::
   ("cache", opCache) ::
+  ("session", opSession) ::
   ("links-spec", opLinksSpec) ::
   ("pyslice", opPySlice) ::
   ("parser-history", opParserHistory) ::
